@@ -14,13 +14,14 @@ import (
 func init() { registry["C10"] = checkC10 }
 
 func checkC10(c *Ctx, r *Report) {
-	r.Explain = "Decides structural necessary conditions of sound version-vector ordering: (R1) 'has seen' — DominatesSource(v) is, for all values, found(v.source) ∧ stored ≥ v.value (abstract evaluation over every order type), with the lookup consulting the current version before merge versions before previous versions; (R2) the conflict decision is the table the property states — known iff the local vector has seen the incoming current version, else accept iff the incoming vector has seen the local current version or both record the same non-empty merge, else conflict — for all 64 valuations of its atoms (don't-care: mutual domination with different current versions, which per-source monotonicity excludes); (R3) locally generated versions are floored by the maximum value already recorded for this source and AddVersion refuses to lower a source; (R4) ownership: vector fields are written only by the vector's own methods, every insertion into the merge versions of an existing vector removes that source from the previous versions (the non-clearing setter has no production caller), an equal merge version is never classified as older; (R5) stored form: encoder and decoder declare the same persisted field set, fill/consume it one-to-one through paired value codecs, and the wire separators written are the ones the parser splits on.; (R6) UpdateHistory tests AddVersionToPV's verdict for the other vector's current version and merge versions and invalidates its own merge versions when a newer version was refused, so that version is recorded. Not decided: nothing-lost/nothing-invented over arbitrary merge histories (in particular a newer version found only in the other vector's previous versions), delta arithmetic, round-trip equality for all vectors."
+	r.Explain = "Decides structural necessary conditions of sound version-vector ordering: (R1) 'has seen' — DominatesSource(v) is, for all values, found(v.source) ∧ stored ≥ v.value (abstract evaluation over every order type), with the lookup consulting the current version before merge versions before previous versions; (R2) the conflict decision is the table the property states — known iff the local vector has seen the incoming current version, else accept iff the incoming vector has seen the local current version or both record the same non-empty merge, else conflict — for all 64 valuations of its atoms (don't-care: mutual domination with different current versions, which per-source monotonicity excludes); (R3) locally generated versions are floored by the maximum value already recorded for this source and AddVersion refuses to lower a source; (R4) ownership: vector fields are written only by the vector's own methods, every insertion into the merge versions of an existing vector removes that source from the previous versions (the non-clearing setter has no production caller), an equal merge version is never classified as older; (R5) stored form: encoder and decoder declare the same persisted field set, fill/consume it one-to-one through paired value codecs, and the wire separators written are the ones the parser splits on.; (R6) UpdateHistory tests AddVersionToPV's verdict for the other vector's current version and merge versions and invalidates its own merge versions when a newer version was refused, so that version is recorded.; (R3, extended) a version generated while merging two documents' vectors is floored by both vectors; (R7, shared with C06-R1) conflict resolution never overwrites the incoming vector in place and carries no state across compare-and-swap retries — a retry would otherwise see its own product as the incoming vector, report the incoming version as already present and never record it. Not decided: nothing-lost/nothing-invented over arbitrary merge histories (in particular a newer version found only in the other vector's previous versions), delta arithmetic, round-trip equality for all vectors."
 	c10R1(c, r)
 	c10R2(c, r)
 	c10R3(c, r)
 	c10R4(c, r)
 	c10R5(c, r)
 	c10R6(c, r)
+	c06R1For(c, r, "C10-R7")
 }
 
 func c10R1(c *Ctx, r *Report) {
@@ -216,6 +217,26 @@ func c10R3(c *Ctx, r *Report) {
 				return false, false
 			})
 			r.Check("C10-R3", fmt.Sprintf("fn=%s hlc.Now #%d floor=maxValueForSource", c.FuncName(fn), n), c.Pos(call.Pos()), ok, "floor is the maximum already recorded for this source (or 0 for a new vector)", "a locally generated version is not floored by the values already recorded for this source: versions could repeat or go backwards")
+			// a version generated while merging two documents' vectors must be floored by BOTH of them: the incoming vector can
+			// remember a version of our own source that the local copy no longer records
+			var docParams []*ssa.Parameter
+			for _, prm := range fn.Params {
+				if pt, isPtr := prm.Type().(*types.Pointer); isPtr && namedOf(pt.Elem()) == "Document" {
+					docParams = append(docParams, prm)
+				}
+			}
+			if len(docParams) >= 2 && len(a) == 1 {
+				for _, prm := range docParams {
+					covered := DependsOn(a[0], func(v ssa.Value) bool {
+						cc, isCall := v.(*ssa.Call)
+						if !isCall || c.CalleeName(cc) != "(*db.HybridLogicalVector).maxValueForSource" {
+							return false
+						}
+						return DependsOn(cc.Call.Args[0], func(w ssa.Value) bool { return w == ssa.Value(prm) })
+					})
+					r.Check("C10-R3", fmt.Sprintf("fn=%s hlc.Now #%d floor covers vector of parameter %s", c.FuncName(fn), n, prm.Name()), c.Pos(call.Pos()), covered, "maxValueForSource of this document's vector contributes to the floor", "the version generated for a merge is not floored by the vector of '"+prm.Name()+"': when that vector remembers a newer version of this database's own source than the other one, the merged vector lowers our source's value and locally generated versions stop increasing")
+				}
+			}
 		}
 	}
 	av := c.Func("(*db.HybridLogicalVector).AddVersion")
